@@ -378,6 +378,29 @@ void runJob(const Job& job, const bool traceBuild, Report& rep, Progress& pg){
     rep.states += ex.stats.states; rep.transitions += ex.stats.transitions;
     rep.counters["runs"] += ex.stats.runs;
     rep.counters["max_distinct_terminal_digests"] = std::max<unsigned long>(rep.counters["max_distinct_terminal_digests"], ex.stats.terminalDigests);
+    // graph + visited states for the TLC cross-check (models/TaskFlow.tla)
+    if(job.mode == 0 && !ex.stats.capped && getenv("VF_DUMP_GRAPH_DIR")){
+        Outcome o0; const auto tr0 = jr.runOnce({}, vfs::DeferFifo, o0);
+        const std::string path = std::string(getenv("VF_DUMP_GRAPH_DIR")) + "/" + (traceBuild ? "trace-" : "fast-") + job.name + "-W" + std::to_string(job.nbWorkers) + ".graph.json";
+        std::ofstream f(path);
+        f << "{\"exec\": \"" << ExecName << "\", \"job\": \"" << job.name << "\", \"N\": " << tr0.tasks.size() << ", \"ordered\": [";
+        bool first = true;
+        for(size_t a = 0 ; a < tr0.tasks.size() ; ++a) for(size_t b = a+1 ; b < tr0.tasks.size() ; ++b) if(vfs::orderedPair(tr0.tasks[a], tr0.tasks[b])){ f << (first ? "" : ",") << "[" << a+1 << "," << b+1 << "]"; first = false; }
+        f << "], \"conflict\": [";
+        first = true;
+        if(traceBuild){
+            for(size_t a = 0 ; a < tr0.tasks.size() ; ++a) for(size_t b = a+1 ; b < tr0.tasks.size() ; ++b){
+                if(vfs::shareCommute(tr0.tasks[a], tr0.tasks[b])) continue;
+                bool conf = false;
+                for(const auto& kv : tr0.tasks[a].footprint){ auto it = tr0.tasks[b].footprint.find(kv.first); if(it == tr0.tasks[b].footprint.end()) continue; const unsigned wa = kv.second.writeMask, ra = kv.second.readMask, wb = it->second.writeMask, rb = it->second.readMask; if((wa & (wb|rb)) || (wb & (wa|ra))){ conf = true; break; } }
+                if(conf){ f << (first ? "" : ",") << "[" << a+1 << "," << b+1 << "]"; first = false; }
+            }
+        }
+        f << "], \"transitions\": " << ex.stats.transitions << ", \"states\": [";
+        first = true;
+        for(const auto& k : ex.visitedStates()){ f << (first ? "" : ",") << "[" << k.created << "," << k.m0 << "," << k.m1 << "]"; first = false; }
+        f << "]}\n";
+    }
     rep.nontrivial += 1;
     rep.counters["max_job_seconds"] = std::max<unsigned long>(rep.counters["max_job_seconds"], (unsigned long)std::chrono::duration<double>(std::chrono::steady_clock::now() - jobStart).count());
     if(ex.stats.capped) rep.exhaustive = false;
